@@ -50,6 +50,10 @@ def run(repo: Repo, rep, tier: str):
     # an edited payload must not be mistaken for "still the default" (omitted chunk = stale default after reload)
     from . import c02
     c02.drawn_waveforms(repo, rep, "C06")
+    cached_alias_rule(repo, rep, "C06")
+    # a pattern's saved bytes are built from the current fields of every cell (shared with C12)
+    from . import c12
+    c12.pattern_raw_data(repo, rep, "C06")
 
 
 def _raw_valued(e: ast.AST, params: Set[str], raw_locals: Set[str]) -> bool:
@@ -62,7 +66,7 @@ def _raw_valued(e: ast.AST, params: Set[str], raw_locals: Set[str]) -> bool:
         return _raw_valued(e.value, params, raw_locals)
     if isinstance(e, ast.Call) and isinstance(e.func, ast.Attribute) and e.func.attr in ("bytes",) and norm(e.func.value) == "r":
         return True
-    if isinstance(e, ast.Call) and norm(e.func) in ("bytes", "bytearray", "memoryview") and len(e.args) == 1:
+    if isinstance(e, ast.Call) and norm(e.func) in ("bytes", "bytearray", "memoryview", "list", "tuple") and len(e.args) == 1:
         return _raw_valued(e.args[0], params, raw_locals)
     return False
 
@@ -86,8 +90,11 @@ def shadow_census(repo: Repo, rep, P: str):
     for c in sorted(repo.all_classes(), key=lambda c: c.fq):
         if not c.file.modname.startswith("rv") or c.file.modname.startswith(("rv.tools", "rv._vendor")):
             continue
-        for name in c.assigns:
-            init_nonconst.add(name)
+        for name, val in c.assigns.items():
+            if isinstance(val, ast.AST) and _is_const(repo, c, val):
+                init_const.add(name)        # a class-level constant default is not a live definition
+            else:
+                init_nonconst.add(name)
         for name in list(c.getters) + list(c.setters):
             init_nonconst.add(name)
         fns = list(c.methods.items()) + [(f"{k}", v) for k, v in c.getters.items()] + [(f"{k}.setter", v) for k, v in c.setters.items()]
@@ -180,6 +187,93 @@ def shadow_census(repo: Repo, rep, P: str):
 
 
 # ---------------------------------------------------------------------------------- R2
+ALIAS_FIXTURE = """
+class View:
+    def __init__(self, module, index):
+        self._table = module.curve.values
+        self.index = index
+
+    def put(self, v):
+        self._table[self.index] = v
+"""
+
+
+def _cached_alias_stores(cls_node: ast.ClassDef) -> List[Tuple[str, str, ast.AST, ast.AST]]:
+    """(attr, last name of the cached chain, the constructor assignment, the write-through statement)."""
+    init = next((n for n in cls_node.body if isinstance(n, ast.FunctionDef) and n.name == "__init__"), None)
+    if init is None:
+        return []
+    params = {a.arg for a in init.args.args if a.arg != "self"}
+    cached: Dict[str, Tuple[str, ast.AST]] = {}
+    for n in walk_no_nested(init):
+        if isinstance(n, ast.Assign) and len(n.targets) == 1:
+            t = attr_chain(n.targets[0])
+            v = attr_chain(n.value)
+            if t and t[0] == "self" and len(t) == 2 and v and v[0] in params and len(v) >= 3:
+                cached[t[1]] = (v[-1], n)
+    out = []
+    if not cached:
+        return out
+    for fn in ast.walk(cls_node):
+        if not isinstance(fn, ast.FunctionDef) or fn.name == "__init__":
+            continue
+        for n in walk_no_nested(fn):
+            tg = []
+            if isinstance(n, ast.Assign):
+                tg = n.targets
+            elif isinstance(n, ast.AugAssign):
+                tg = [n.target]
+            for t in tg:
+                if isinstance(t, ast.Subscript):
+                    ch = attr_chain(t.value)
+                    if ch and ch[0] == "self" and len(ch) == 2 and ch[1] in cached:
+                        out.append((ch[1], cached[ch[1]][0], cached[ch[1]][1], n))
+            if isinstance(n, ast.Call) and isinstance(n.func, ast.Attribute) and n.func.attr in (
+                    "append", "extend", "insert", "pop", "remove", "clear", "sort", "reverse", "update", "setdefault"):
+                ch = attr_chain(n.func.value)
+                if ch and ch[0] == "self" and len(ch) == 2 and ch[1] in cached:
+                    out.append((ch[1], cached[ch[1]][0], cached[ch[1]][1], n))
+    return out
+
+
+def cached_alias_rule(repo: Repo, rep, P: str):
+    """A helper object that caches `owner.payload.values` at construction and later writes through the cached
+    reference edits an orphan once the payload's `values` attribute has been rebound — which loading does.
+    Writes must go through the owner (`self.module.payload.values[i] = v`)."""
+    fx = ast.parse(ALIAS_FIXTURE).body[0]
+    rep.count("cached_alias_fixture_hits", len(_cached_alias_stores(fx)), 1)
+    # attribute names that some non-constructor code rebinds
+    rebound: Dict[str, str] = {}
+    for rel, sf in sorted(repo.files.items()):
+        if not sf.modname.startswith("rv") or sf.modname.startswith(("rv.tools", "rv._vendor")):
+            continue
+        for fn in ast.walk(sf.tree):
+            if isinstance(fn, ast.FunctionDef) and fn.name != "__init__":
+                for n in walk_no_nested(fn):
+                    if isinstance(n, ast.Assign):
+                        for t in n.targets:
+                            if isinstance(t, ast.Attribute):
+                                rebound.setdefault(t.attr, f"{rel}:{fn.name}:{n.lineno}")
+    n_cls = n_hits = 0
+    for c in repo.all_classes():
+        if not c.file.modname.startswith("rv") or c.file.modname.startswith(("rv.tools", "rv._vendor")):
+            continue
+        n_cls += 1
+        for attr, last, ctor, st in _cached_alias_stores(c.node):
+            n_hits += 1
+            con = f"{c.file.rel}:{c.qualname}.{attr}"
+            if last in rebound:
+                rep.violation(f"{P}.R4", con, f"{norm(ctor)}  …  {norm(st)}",
+                              f"the edit is written through a reference to `.{last}` cached at construction; `.{last}` is rebound by "
+                              f"{rebound[last]} (loading replaces it), so on a loaded object the edit lands in an orphaned list and the "
+                              "original file content is saved instead", f"{c.file.rel}:{st.lineno}")
+            else:
+                rep.ok(f"{P}.R4", con, f"{norm(ctor)} … {norm(st)}", f"`.{last}` is never rebound after construction")
+    rep.count("classes_scanned_for_cached_aliases", n_cls, 100)
+    rep.count("cached_alias_write_sites", n_hits)
+    rep.ok(f"{P}.R4", "rv/**", f"{n_cls} classes", "no write through a construction-time alias of a rebindable payload list")
+
+
 def sampler_replay_guard(repo: Repo, rep, P: str):
     samp, wfn, rfn, ws, rs = c16.instrument_layouts(repo)
     rel = samp.file.rel
